@@ -143,13 +143,19 @@ func init() {
 					hist = 1
 				}
 				docs := map[string]*engine.DocCfg{"doc1": d, "doc2": d, "doc3": d}
-				if hist == 2 {
-					// the later document is larger, so that state left behind by a call on a small one shows
-					d2 := docCfg(d.Depth, 3, []string{"a"}, engine.KNil|engine.KFloat|engine.KString)
+				if hist == 2 && len(p.Steps) > 0 && (p.Steps[0].Kind == "slice" || p.Steps[0].Kind == "union" || p.Steps[0].Kind == "index") {
+					// array-oriented paths: the later document is a longer array, so that state left
+					// behind by a call on a short one (e.g. a clamped step) shows in the result
+					d1 := docCfg(d.Depth, 1, []string{"a"}, engine.KNil|engine.KFloat)
+					d1.RootKinds = engine.KArray
+					d2 := docCfg(d.Depth, 3, []string{"a"}, engine.KNil|engine.KFloat)
+					d2.RootKinds = engine.KArray
+					d2.MinLen = 2
 					if d.Depth == 2 {
+						d1.MaxLenAt = map[int]int{1: 1}
 						d2.MaxLenAt = map[int]int{1: 1}
 					}
-					docs["doc2"] = d2
+					docs["doc1"], docs["doc2"] = d1, d2
 				}
 				scribble := "0"
 				if i%4 == 1 {
@@ -290,25 +296,25 @@ func init() {
 // badPaths: one or more paths failing at each action kind of the parser.
 func badPaths() []string {
 	return []string{
-		"$[99999999999999999999]",          // bad integer (Atoi range)
-		"$[1:99999999999999999999]",        // bad integer inside a slice
-		"$[?(@.a == 1e999)]",               // bad float
-		"$[?(@.a == 1.2.3)]",               // bad float syntax
-		"$.unknown()",                      // unknown function
-		"$.a.nofn().f()",                   // unknown function before a known one
-		"$[(@.length-1)]",                  // script
-		"$[?(@.* == 1)]",                   // value group in comparison
-		"$[?(@.a == @.b)]",                 // two current nodes
-		"$.a[",                             // trailing garbage
-		"$.a b",                            // trailing garbage
-		"",                                 // empty
-		"$[?(@.a =~ /(/)]",                 // bad regex
-		"$['\\u12']",                       // bad escape (hex)
-		"$[\"\\x\"]",                       // bad escape
-		"$[?(@.a == 'x' && )]",             // incomplete filter
-		"$[?($..a == 1)]",                  // value group ($-rooted)
-		"$.f().a",                          // step after function
-		"$[?(@.f().unknown() == 1)]",       // unknown function in filter
-		"$[0,1:99999999999999999999:2]",    // bad integer in union
+		"$[99999999999999999999]",       // bad integer (Atoi range)
+		"$[1:99999999999999999999]",     // bad integer inside a slice
+		"$[?(@.a == 1e999)]",            // bad float
+		"$[?(@.a == 1.2.3)]",            // bad float syntax
+		"$.unknown()",                   // unknown function
+		"$.a.nofn().f()",                // unknown function before a known one
+		"$[(@.length-1)]",               // script
+		"$[?(@.* == 1)]",                // value group in comparison
+		"$[?(@.a == @.b)]",              // two current nodes
+		"$.a[",                          // trailing garbage
+		"$.a b",                         // trailing garbage
+		"",                              // empty
+		"$[?(@.a =~ /(/)]",              // bad regex
+		"$['\\u12']",                    // bad escape (hex)
+		"$[\"\\x\"]",                    // bad escape
+		"$[?(@.a == 'x' && )]",          // incomplete filter
+		"$[?($..a == 1)]",               // value group ($-rooted)
+		"$.f().a",                       // step after function
+		"$[?(@.f().unknown() == 1)]",    // unknown function in filter
+		"$[0,1:99999999999999999999:2]", // bad integer in union
 	}
 }
